@@ -480,30 +480,47 @@ theorem find_iter_eq_rec (root : Node) (cap : Nat) (hwf : WF root .skind) (hp : 
         findIter root path arr 0 false = some (.value (some f.handlers) f.fullPath f.params t arr' plen')) ∧
     (find root path cap = .miss → ∃ t arr', arr'.length = cap ∧
         findIter root path arr 0 false = some (.value none [] [] t arr' 0)) ∧
-    agrees (find root path cap) (findIter root path arr 0 false) = true :=
-  ⟨(findIter_spec root cap hwf hp path arr harr).1, (findIter_spec root cap hwf hp path arr harr).2,
-   findIter_agrees root cap hwf hp path arr harr⟩
+    agrees (find root path cap) (findIter root path arr 0 false) = true := by
+  refine ⟨?_, (findIter_spec false root cap hwf hp path arr harr).2, findIter_agrees root cap hwf hp path arr harr⟩
+  intro f hf
+  obtain ⟨t, arr', plen', h⟩ := (findIter_spec false root cap hwf hp path arr harr).1 f hf
+  rw [map_unescapeVal_false] at h
+  exact ⟨t, arr', plen', h⟩
+
+/-- **Iterative = recursive, with `unescape`** (the `find` of 59ce9b1: raw text kept while searching, values
+unescaped in the epilogue): for either value of the flag the same route is found, and the values are the
+recursive model's substrings passed through `url.QueryUnescape` (kept raw when that fails) exactly when the flag
+is on; the search itself (hit / miss, which node) does not depend on the flag. -/
+theorem find_iter_eq_rec_unescape (u : Bool) (root : Node) (cap : Nat) (hwf : WF root .skind) (hp : PnOK root 0 cap)
+    (path : Bytes) (arr : List Bytes) (harr : arr.length = cap) :
+    (∀ f, find root path cap = .hit f → ∃ t arr' plen',
+        findIter root path arr 0 u = some (.value (some f.handlers) f.fullPath
+          (f.params.map fun kv => (kv.1, unescapeVal u kv.2)) t arr' plen')) ∧
+    (find root path cap = .miss → ∃ t arr', arr'.length = cap ∧
+        findIter root path arr 0 u = some (.value none [] [] t arr' 0)) :=
+  findIter_spec u root cap hwf hp path arr harr
 
 /-- **The Go loop terminates**: within `4 * (number of nodes)` program points (every node is entered at
 most once and left after at most four labelled blocks), without a run-time panic. -/
-theorem find_iter_terminates (root : Node) (cap : Nat) (hwf : WF root .skind) (hp : PnOK root 0 cap) (path : Bytes)
+theorem find_iter_terminates (u : Bool) (root : Node) (cap : Nat) (hwf : WF root .skind) (hp : PnOK root 0 cap) (path : Bytes)
     (arr : List Bytes) (harr : arr.length = cap) :
-    ∃ o, run path false (4 * size root) .top (initSt root path arr 0) = some o ∧ ∀ s, o ≠ .panic s :=
-  findIter_terminates root cap hwf hp path arr harr
+    ∃ o, run path u (4 * size root) .top (initSt root path arr 0) = some o ∧ ∀ s, o ≠ .panic s :=
+  findIter_terminates u root cap hwf hp path arr harr
 
-/-- **C06 dispatch, on the iterative model of `ServeHTTP`** (any setting of RedirectTrailingSlash and
-HandleMethodNotAllowed; values not unescaped, i.e. `UseRawPath` off or `UnescapePathValues` off): the
-selected route's handler runs with its pattern and the matched substrings; when no pattern matches
+/-- **C06 dispatch, on the iterative model of `ServeHTTP`** (EVERY setting of RedirectTrailingSlash,
+HandleMethodNotAllowed and of unescaping = `UseRawPath && UnescapePathValues`; full strength since 59ce9b1): the
+selected route's handler runs with its pattern and the matched substrings, each passed through
+`url.QueryUnescape` exactly when unescaping is on (`params_are_unescaped_substrings`); when no pattern matches
 NO route handler runs and the answer is a 301/307 redirect (only with RedirectTrailingSlash, path not
 `/`, method not CONNECT; 301 iff GET), 405 (only with HandleMethodNotAllowed, exactly when the tree of
 another method finds a handler for the path), or 404 (otherwise). -/
 theorem dispatch_selected_iter (rs : List (Bytes × Bytes × Nat)) (e : Engine)
-    (hlen : ∀ r ∈ rs, r.2.1.length < 65536) (h : Engine.addRoutes {} rs = .ok e) (o : Opts)
-    (hu : o.unescape = false) (m p' : Bytes) :
+    (hlen : ∀ r ∈ rs, r.2.1.length < 65536) (h : Engine.addRoutes {} rs = .ok e) (o : Opts) (m p' : Bytes) :
     (∃ r ps, Selected (toSpec rs) m (47 :: p') r ps ∧
-        Iter.Engine.serveIter e o m (47 :: p') = .handler ⟨r.handler, r.pattern, ps⟩) ∨
+        Iter.Engine.serveIter e o m (47 :: p') =
+          .handler ⟨r.handler, r.pattern, ps.map fun kv => (kv.1, unescapeVal o.unescape kv.2)⟩) ∨
     (NoMatch (toSpec rs) m (47 :: p') ∧ NoHandlerOutcome e o m (47 :: p') (Iter.Engine.serveIter e o m (47 :: p'))) := by
-  obtain ⟨h1, h2, _⟩ := serveIter_serve e (toSpec rs) (addRoutes_ok rs e hlen h) o hu m p'
+  obtain ⟨h1, h2, _⟩ := serveIter_serve e (toSpec rs) (addRoutes_ok rs e hlen h) o m p'
   rcases serve_selected rs e hlen h m (47 :: p') with ⟨r, ps, hs, hf⟩ | ⟨hn, hf⟩
   · exact Or.inl ⟨r, ps, hs, h1 _ hf⟩
   · exact Or.inr ⟨hn, h2 hf⟩
@@ -513,9 +530,9 @@ redirect / 405 / NoRoute options): if no pattern of the method matches, `ServeHT
 handler, whatever the options. -/
 theorem no_match_no_handler (rs : List (Bytes × Bytes × Nat)) (e : Engine)
     (hlen : ∀ r ∈ rs, r.2.1.length < 65536) (h : Engine.addRoutes {} rs = .ok e) (o : Opts)
-    (hu : o.unescape = false) (m p' : Bytes) (hno : NoMatch (toSpec rs) m (47 :: p')) (f : Found) :
+    (m p' : Bytes) (hno : NoMatch (toSpec rs) m (47 :: p')) (f : Found) :
     Iter.Engine.serveIter e o m (47 :: p') ≠ .handler f := by
-  rcases dispatch_selected_iter rs e hlen h o hu m p' with ⟨r, ps, hs, _⟩ | ⟨_, hout⟩
+  rcases dispatch_selected_iter rs e hlen h o m p' with ⟨r, ps, hs, _⟩ | ⟨_, hout⟩
   · exact absurd hno (selected_noMatch_excl _ m _ r ps hs)
   · intro hc
     rw [hc] at hout
@@ -526,23 +543,63 @@ theorem bad_path_400 (e : Engine) (o : Opts) (m : Bytes) (c : UInt8) (p' : Bytes
     Iter.Engine.serveIter e o m [] = .badRequest ∧ Iter.Engine.serveIter e o m (c :: p') = .badRequest := by
   simp [Iter.Engine.serveIter, hc]
 
-/-- The iterative model has the block order and back-track calls of the source (regenerated). -/
+/-- The iterative model has the block order and back-track calls of the source (regenerated), and the source
+unescapes where the model does: the catch-all value in the loop (`Any:`), the parameter values in the epilogue. -/
 theorem model_matches_gen_iter :
     Gen.Route.findLabels = ["Param", "Any"] ∧ Gen.Route.findGotos = ["Param", "Param", "Any"] ∧
     Gen.Route.findBacktrackArgs = ["skind", "akind"] ∧
-    Gen.Route.backtrackRestores = ["searchIndex", "paramIndex", "searchIndex"] := by decide
+    Gen.Route.backtrackRestores = ["searchIndex", "paramIndex", "searchIndex"] ∧
+    Gen.Route.findUnescapeSites = ["loop", "epilogue"] := by decide
 
-/-- **`dispatch_selected_iter` FAILS with unescaping** (`UseRawPath` + `UnescapePathValues`, known
-finding C06-unescape-backtrack, reproduced on the real engine): routes GET `/c/:p/x` and GET `/:y/:x`,
-request `/c/%41/z`.  No pattern matches, yet the handler of `/:y/:x` runs with y=`A`, x=`z`: the value
-`%41` was stored unescaped (`A`, 1 byte) and backtracking subtracted 1 instead of 3 from `searchIndex`. -/
-theorem dispatch_selected_iter_fails_at :
-    let rs : List (Bytes × Bytes × Nat) :=
+/-- **The handler's parameters are the matched substrings, unescaped when asked**: whenever the iterative
+engine model runs a route handler, it is the selected route's, substituting the RAW values back into its
+pattern gives the request path, and the values handed over are those raw substrings passed through
+`url.QueryUnescape` (kept as they are when it reports an error) iff `UseRawPath && UnescapePathValues`. -/
+theorem params_are_unescaped_substrings (rs : List (Bytes × Bytes × Nat)) (e : Engine)
+    (hlen : ∀ r ∈ rs, r.2.1.length < 65536) (h : Engine.addRoutes {} rs = .ok e) (o : Opts) (m p' : Bytes) (f : Found)
+    (hf : Iter.Engine.serveIter e o m (47 :: p') = .handler f) :
+    ∃ r raw, Selected (toSpec rs) m (47 :: p') r raw ∧ f.handlers = r.handler ∧ f.fullPath = r.pattern ∧
+      f.params = raw.map (fun kv => (kv.1, unescapeVal o.unescape kv.2)) ∧
+      instantiate (parsePattern r.pattern) raw = 47 :: p' ∧ raw.map Prod.fst = names (parsePattern r.pattern) := by
+  rcases dispatch_selected_iter rs e hlen h o m p' with ⟨r, ps, hs, hh⟩ | ⟨_, hout⟩
+  · rw [hh] at hf
+    injection hf with hf
+    subst hf
+    have hm : matchToks (parsePattern r.pattern) (47 :: p') = some ps := by
+      have := hs.2.1
+      unfold Route.matches at this
+      by_cases e' : r.method = m
+      · simpa [e'] using this
+      · simp [e'] at this
+    exact ⟨r, ps, hs, rfl, rfl, rfl, instantiate_match _ _ _ hm, matchToks_names _ _ _ hm⟩
+  · rw [hf] at hout
+    rcases hout with ⟨c, h1, _⟩ | ⟨h1, _⟩ | ⟨h1, _⟩ <;> cases h1
+
+/-- **Regression on the witnesses of the former finding C06-unescape-backtrack** (repaired in /repo by 59ce9b1),
+with unescaping ON: routes GET `/c/:p/x`, GET `/:y/:x` and request `/c/%41/z`: no pattern matches and no handler
+runs (404); routes `/:a/x`, `/*z` and `/%41/y`: z = `A/y` (was `1/y`); routes `/:y/:x/a:x/*w`, `/c/ab:y/abc` and
+`/c/ab%2f/abc/a%20b`: the first route runs with y=`c`, x=`ab/`, x=`bc`, w=`a b` (was 404). -/
+theorem dispatch_selected_iter_repaired :
+    (let rs : List (Bytes × Bytes × Nat) :=
       [([71, 69, 84], [47, 99, 47, 58, 112, 47, 120], 1), ([71, 69, 84], [47, 58, 121, 47, 58, 120], 2)]
-    let e := match Engine.addRoutes {} rs with | .ok e => e | .error _ => {}
-    NoMatch (toSpec rs) [71, 69, 84] [47, 99, 47, 37, 52, 49, 47, 122] ∧
-    Iter.Engine.serveIter e { unescape := true } [71, 69, 84] [47, 99, 47, 37, 52, 49, 47, 122]
-      = .handler ⟨2, [47, 58, 121, 47, 58, 120], [([121], [65]), ([120], [122])]⟩ := by decide
+     let e := match Engine.addRoutes {} rs with | .ok e => e | .error _ => {}
+     NoMatch (toSpec rs) [71, 69, 84] [47, 99, 47, 37, 52, 49, 47, 122] ∧
+     Iter.Engine.serveIter e { unescape := true } [71, 69, 84] [47, 99, 47, 37, 52, 49, 47, 122] = .notFound) ∧
+    (let rs : List (Bytes × Bytes × Nat) := [([71, 69, 84], [47, 58, 97, 47, 120], 1), ([71, 69, 84], [47, 42, 122], 2)]
+     let e := match Engine.addRoutes {} rs with | .ok e => e | .error _ => {}
+     Iter.Engine.serveIter e { unescape := true } [71, 69, 84] [47, 37, 52, 49, 47, 121]
+       = .handler ⟨2, [47, 42, 122], [([122], [65, 47, 121])]⟩) ∧
+    (let rs : List (Bytes × Bytes × Nat) :=
+      [([71, 69, 84], [47, 58, 121, 47, 58, 120, 47, 97, 58, 120, 47, 42, 119], 1),
+       ([71, 69, 84], [47, 99, 47, 97, 98, 58, 121, 47, 97, 98, 99], 2)]
+     let e := match Engine.addRoutes {} rs with | .ok e => e | .error _ => {}
+     Iter.Engine.serveIter e { unescape := true } [71, 69, 84]
+         [47, 99, 47, 97, 98, 37, 50, 102, 47, 97, 98, 99, 47, 97, 37, 50, 48, 98]
+       = .handler ⟨1, [47, 58, 121, 47, 58, 120, 47, 97, 58, 120, 47, 42, 119],
+           [([121], [99]), ([120], [97, 98, 47]), ([120], [98, 99]), ([119], [97, 32, 98])]⟩) := by decide
+
+/-- non-vacuity of the full-strength statements: an accepted engine served with unescaping on -/
+example : ({ unescape := true } : Opts).unescape = true ∧ ({ } : Opts).unescape = false := ⟨rfl, rfl⟩
 
 /-- non-vacuity: the example engine is accepted, its tree meets `find_iter_eq_rec`'s hypotheses (above),
 and the iterative lookup of `/a/c/d` backtracks out of `/a/:x` into `/*z` -/
@@ -614,12 +671,12 @@ runs and the answer is 405, some registered route of ANOTHER method matches the 
 HandleMethodNotAllowed on, no registered route of any other method matches. -/
 theorem status_405_404_of_route_set (rs : List (Bytes × Bytes × Nat)) (e : Engine)
     (hlen : ∀ r ∈ rs, r.2.1.length < 65536) (h : Engine.addRoutes {} rs = .ok e) (o : Opts)
-    (hu : o.unescape = false) (m p' : Bytes) (hno : NoMatch (toSpec rs) m (47 :: p')) :
+    (m p' : Bytes) (hno : NoMatch (toSpec rs) m (47 :: p')) :
     (Iter.Engine.serveIter e o m (47 :: p') = .notAllowed →
         ∃ r ∈ toSpec rs, r.method ≠ m ∧ (r.matches r.method (47 :: p')).isSome = true) ∧
     (Iter.Engine.serveIter e o m (47 :: p') = .notFound → o.handleMethodNotAllowed = true →
         ∀ r ∈ toSpec rs, r.method ≠ m → r.matches r.method (47 :: p') = none) := by
-  rcases dispatch_selected_iter rs e hlen h o hu m p' with ⟨r, ps, hs, _⟩ | ⟨_, hout⟩
+  rcases dispatch_selected_iter rs e hlen h o m p' with ⟨r, ps, hs, _⟩ | ⟨_, hout⟩
   · exact absurd hno (selected_noMatch_excl _ m _ r ps hs)
   · exact noHandler_routes e (toSpec rs) (addRoutes_ok rs e hlen h) o m (47 :: p') _ hout
 
@@ -631,18 +688,5 @@ theorem registered_pattern_rooted (prefixes : List Bytes) (rel p : Bytes) (h : a
 
 example : absPattern [[97], [46, 46], [46, 46]] [58, 120] = .ok [47, 58, 120] := by rfl
 example : NoMatch (toSpec [([71, 69, 84], [47, 97, 47, 98], 1), ([80, 79, 83, 84], [47, 112, 47], 2)]) [71, 69, 84] [47, 113] := by decide
-
-/-- the `_partial` companion of `dispatch_selected_iter_fails_at` under the naming convention: the dispatch
-statement with the excluding hypothesis "parameter values are not unescaped" (`UseRawPath` off — the
-default — or `UnescapePathValues` off) spelled out -/
-theorem dispatch_selected_iter_partial (rs : List (Bytes × Bytes × Nat)) (e : Engine)
-    (hlen : ∀ r ∈ rs, r.2.1.length < 65536) (h : Engine.addRoutes {} rs = .ok e) (o : Opts)
-    (hu : o.unescape = false) (m p' : Bytes) :
-    (∃ r ps, Selected (toSpec rs) m (47 :: p') r ps ∧
-        Iter.Engine.serveIter e o m (47 :: p') = .handler ⟨r.handler, r.pattern, ps⟩) ∨
-    (NoMatch (toSpec rs) m (47 :: p') ∧ NoHandlerOutcome e o m (47 :: p') (Iter.Engine.serveIter e o m (47 :: p'))) :=
-  dispatch_selected_iter rs e hlen h o hu m p'
-example : ({ } : Opts).unescape = false ∧ ({ redirectTrailingSlash := false, handleMethodNotAllowed := true } : Opts).unescape = false :=
-  ⟨rfl, rfl⟩
 
 end Hertz.Props.C06
